@@ -586,20 +586,25 @@ Definition ecb (h : hst) (e : list N) (g : nat) : option (N * N) :=
   | _ => None
   end%N.
 
-Definition gframe (cb : option (N * N)) (y y' : gor) : Prop :=
+Definition gframe (s : st) (cb : option (N * N)) (y y' : gor) : Prop :=
   (forall r, gp y = GDone r -> gp y' = GDone r) /\
+  gsp y' = gsp y /\
+  (* an error is passed to SetResult only if the starter's context is live at that moment *)
+  (forall e, gp y' = GPub (RErr e) \/ gp y' = GDone (RErr e) ->
+     (gp y = GPub (RErr e) \/ gp y = GDone (RErr e)) \/ ctx_cancelled s (gsp y) = false) /\
   match cb with
   | Some (i, k) => gres y = None /\ exists o, outcome i k = Some o /\ gres y' = Some o
   | None => gres y' = gres y \/ exists o, gres y = Some o /\ is_ok o = false /\ gres y' = Some RCanceled
   end.
 
-Lemma gframe_same y : gframe None y y.
-Proof. split; [auto | now left]. Qed.
+Lemma gframe_same s y : gframe s None y y.
+Proof. split; [auto|]. split; [reflexivity|]. split; [auto | now left]. Qed.
 
 Lemma hdec_gors h e h' : hdec h e h' ->
   forall g y', nth_error (gs (ms h')) g = Some y' ->
-  (exists y, nth_error (gs (ms h)) g = Some y /\ gframe (ecb h e g) y y') \/
-  (g = length (gs (ms h)) /\ gres y' = None /\ prom (ms h) = None /\ hmap h' = hmap h ++ [HG g] /\ exists i ch, e = [3; i; ch]%N).
+  (exists y, nth_error (gs (ms h)) g = Some y /\ gframe (ms h) (ecb h e g) y y') \/
+  (g = length (gs (ms h)) /\ gres y' = None /\ prom (ms h) = None /\ hmap h' = hmap h ++ [HG g] /\
+   exists i ch, e = [3; i; ch]%N /\ nth_error (hmap h) (N.to_nat i) = Some (HC (gsp y'))).
 Proof.
   intros D.
   destruct D as [c Hc|i ch a0 x0 Hm G Ep|i ch g0 y0 Hm G Hp|i ch g0 y0 r Hm G Hp|i a0 x0 Hm G|i k g0 y0 ec o Hm G Hp Ho];
@@ -610,20 +615,24 @@ Proof.
     + left. exists y'. split; [exact Hy | apply gframe_same].
     + apply app_lookup in Hy as [Hy|[-> ->]].
       * left. exists y'. split; [exact Hy | apply gframe_same].
-      * right. repeat split; eauto.
+      * right. cbn [gsp]. repeat split; eauto.
   - left. cbn [ecb]. cbn [step] in Hy. rewrite G in Hy.
     destruct Hp as [o [Hp|Hp]]; rewrite Hp in Hy; cbn [gs] in Hy;
       (destruct (setg_lookup _ _ _ _ _ Hy) as [[_ H1]|[-> [y1 [Hy1 ->]]]]; [exists y'; split; [exact H1 | apply gframe_same]|]);
       rewrite G in Hy1; inversion Hy1; subst y1; exists y0; (split; [exact G|]); (split; [rewrite Hp; discriminate|]);
-      unfold gres; rewrite Hp; cbn [gp].
-    + now left.
-    + destruct o as [v|e0|]; unfold final_res;
-        [left; reflexivity | | left; destruct (ctx_cancelled (ms h) (gsp y0)); reflexivity].
-      destruct (ctx_cancelled (ms h) (gsp y0)); [right; exists (RErr e0); auto | left; reflexivity].
+      (split; [reflexivity|]); cbn [gp gsp].
+    + split; [intros e0 [H|H]; discriminate|]. unfold gres; rewrite Hp; cbn [gp]. now left.
+    + split.
+      * intros e0 [H|H]; [|discriminate]. right. inversion H as [Hf]. unfold final_res in Hf.
+        destruct o as [v|e1|]; [discriminate| |]; destruct (ctx_cancelled (ms h) (gsp y0)); try discriminate; reflexivity.
+      * unfold gres; rewrite Hp; cbn [gp]. destruct o as [v|e0|]; unfold final_res;
+          [left; reflexivity | | left; destruct (ctx_cancelled (ms h) (gsp y0)); reflexivity].
+        destruct (ctx_cancelled (ms h) (gsp y0)); [right; exists (RErr e0); auto | left; reflexivity].
   - left. cbn [ecb]. destruct (settle_cmove (step (ms h) (GStep g0))) as (_ & Eg & _). rewrite Eg in Hy.
     cbn [step] in Hy. rewrite G, Hp in Hy. cbn [gs] in Hy.
     destruct (setg_lookup _ _ _ _ _ Hy) as [[_ H1]|[-> [y1 [Hy1 ->]]]]; [exists y'; split; [exact H1 | apply gframe_same]|].
     rewrite G in Hy1; inversion Hy1; subst y1. exists y0. split; [exact G|]. split; [rewrite Hp; discriminate|].
+    split; [reflexivity|]. cbn [gp gsp]. split; [intros e0 [H|H]; [discriminate|]; inversion H; subst r; left; now left|].
     left. unfold gres. now rewrite Hp.
   - left. exists y'. split; [|apply gframe_same].
     destruct (cmove_wakectx (step (ms h) (CancelCtx a0)) a0) as (_ & Eg & _). rewrite Eg in Hy. cbn [step] in Hy. now rewrite G in Hy.
@@ -632,7 +641,9 @@ Proof.
     + assert (E : Nat.eqb g0 g = false) by (apply Nat.eqb_neq; congruence). rewrite E.
       exists y'. split; [exact H1 | apply gframe_same].
     + rewrite Nat.eqb_refl. rewrite G in Hy1; inversion Hy1; subst y1. exists y0. split; [exact G|].
-      split; [rewrite Hp; discriminate|]. split; [unfold gres; now rewrite Hp|]. exists o. split; [exact Ho|].
+      split; [rewrite Hp; discriminate|]. split; [reflexivity|]. cbn [gp gsp].
+      split; [intros e0 [H|H]; destruct (is_ok o); discriminate|].
+      split; [unfold gres; now rewrite Hp|]. exists o. split; [exact Ho|].
       unfold gres. cbn [gp]. destruct (is_ok o); reflexivity.
 Qed.
 
@@ -657,6 +668,29 @@ Proof.
   - left. split; [reflexivity|]. split; [intros; discriminate|]. apply gs_len_step. intros; discriminate.
 Qed.
 
+(* a cancelled context stays cancelled *)
+Lemma step_ctx_mono s e a : ctx_cancelled s a = true -> ctx_cancelled (step s e) a = true.
+Proof.
+  unfold ctx_cancelled. destruct (nth_error (cs s) a) as [x|] eqn:G; [|discriminate]. intros Hc.
+  assert (Hsetc : forall k p, match nth_error (setc s k p) a with Some x0 => cc x0 | None => false end = true).
+  { intros k p. destruct (Nat.eq_dec a k) as [->|Hne]; [rewrite (setc_same _ _ _ _ G); exact Hc | rewrite setc_other, G by exact Hne; exact Hc]. }
+  destruct e as [pre|k|k|k|k|g o|g]; cbn [step].
+  - cbn [cs]. rewrite (nth_error_app_old _ _ _ _ G). exact Hc.
+  - destruct (nth_error (cs s) k) as [x1|]; [|now rewrite G]. destruct (cp x1); try (now rewrite G). destruct (prom s); cbn [cs]; apply Hsetc.
+  - destruct (nth_error (cs s) k) as [x1|]; [|now rewrite G]. destruct (cp x1); try (now rewrite G).
+    destruct (done_res s p); [cbn [cs]; apply Hsetc | now rewrite G].
+  - destruct (nth_error (cs s) k) as [x1|]; [|now rewrite G]. destruct (cp x1); try (now rewrite G).
+    destruct (cc x1); [cbn [cs]; apply Hsetc | now rewrite G].
+  - destruct (nth_error (cs s) k) as [x1|] eqn:G1; [|now rewrite G]. cbn [cs]. destruct (Nat.eq_dec a k) as [->|Hne].
+    + rewrite nth_error_set_nth_same by (eapply nth_error_nth_len; eauto). reflexivity.
+    + rewrite nth_error_set_nth_other, G by exact Hne. exact Hc.
+  - destruct (nth_error (gs s) g) as [y|]; [|now rewrite G]. destruct (gp y); cbn [cs]; now rewrite G.
+  - destruct (nth_error (gs s) g) as [y|]; [|now rewrite G]. destruct (gp y); cbn [cs]; now rewrite G.
+Qed.
+
+Lemma hdec_ctx_mono h e h' a : hdec h e h' -> ctx_cancelled (ms h) a = true -> ctx_cancelled (ms h') a = true.
+Proof. apply (hdec_closed (fun s => ctx_cancelled s a = true)). intros s e0. apply step_ctx_mono. Qed.
+
 (* success *)
 Lemma gres_succeeded s g y v : Inv s -> nth_error (gs s) g = Some y -> gres y = Some (RVal v) -> succeeded s g v.
 Proof.
@@ -672,14 +706,14 @@ Definition NoSucc (s : st) : Prop := forall g v, ~ succeeded s g v.
 Lemma hdec_nosucc h e h' : hdec h e h' -> Inv (ms h) -> NoSucc (ms h) -> (forall i, e <> [5; i; 0]%N) -> NoSucc (ms h').
 Proof.
   intros D HI HN He g v HS. destruct (succeeded_gres _ _ _ HS) as [y' [Hy' Hr']].
-  destruct (hdec_gors _ _ _ D _ _ Hy') as [[y [Hy [_ Hf]]]|(_ & Hn & _)]; [|congruence].
+  destruct (hdec_gors _ _ _ D _ _ Hy') as [[y [Hy (_ & _ & _ & Hf)]]|(_ & Hn & _)]; [|congruence].
   destruct (ecb h e g) as [[i k]|] eqn:Ecb.
   - destruct Hf as [_ [o [Ho Hro]]]. rewrite Hr' in Hro. inversion Hro; subst o.
     unfold outcome in Ho. destruct (N.eqb_spec k 0) as [->|Hk].
     + unfold ecb in Ecb. destruct e as [|n1 [|n2 [|n3 [|n4 t]]]]; try discriminate.
       all: repeat (match type of Ecb with context [match ?t with _ => _ end] => destruct t eqn:?; try discriminate Ecb end).
       inversion Ecb; subst. exfalso. eapply He. reflexivity.
-    + destruct (N.eqb k 1); [discriminate|]. destruct (N.eqb k 2); discriminate.
+    + destruct (N.eqb k 2); [discriminate|]. destruct (N.leb k 64); discriminate.
   - destruct Hf as [Hf|[o [_ [_ Hf]]]]; [|congruence]. rewrite Hr' in Hf.
     apply (HN g v). symmetry in Hf. eapply gres_succeeded; eauto.
 Qed.
